@@ -438,6 +438,44 @@ theorem one_col_right (op : Op) (how : How) (m : Option Dir) (ch : ColHow) (idx 
   | nil => exact absurd hc (names_ne_nil a ha)
   | cons c cs => simp only [colArg_one _ _ _ _ _ _ _ h]; rfl
 
+/-- one-column frames among themselves, with a Series or a scalar: the result is the Series result packed as a one-column
+frame (`pd.DataFrame(res)`), named after the operands' common column name, else `0` -/
+theorem one_col_series (op : Op) (how : How) (m : Option Dir) (ch : ColHow) (idx : List Int) (n : String) (col : RCol) (s : RSeries)
+    (h : col.length = idx.length) :
+    binopF op how m ch (.df { idx := idx, cols := [(n, col)] }) (.ts s) =
+      wrap1 "0" (binop op how m (.ts { idx := idx, vals := col }) (.ts s)) := by
+  obtain ⟨ix, hix, hb⟩ := binop_index op how m { idx := idx, vals := col } s
+  rw [hb]
+  have h1 : indexesOfF [FOperand.df { idx := idx, cols := [(n, col)] }, FOperand.ts s] = [idx, s.idx] := rfl
+  have h2 : multiNames [FOperand.df (reindexF { idx := idx, cols := [(n, col)] } ix m), FOperand.ts (reindexR s ix m)] = [] := by
+    simp [multiNames, reindexF]
+  simp only [binopF, h1, hix, alignF, kernelF, h2, resultCols, colArg_one _ _ _ _ _ _ _ h]
+  simp [colArg, kernel, isDf, resultName, nameOf, reindexF, wrap1, reindexR_idx]
+
+theorem one_col_scalar (op : Op) (how : How) (m : Option Dir) (ch : ColHow) (idx : List Int) (n : String) (col : RCol) (q : Option Rat)
+    (h : col.length = idx.length) :
+    binopF op how m ch (.df { idx := idx, cols := [(n, col)] }) (.num q) =
+      wrap1 n (binop op how m (.ts { idx := idx, vals := col }) (.num q)) := by
+  have h1 : indexesOfF [FOperand.df { idx := idx, cols := [(n, col)] }, FOperand.num q] = [idx] := rfl
+  have hix : joinIndex how [idx] = some idx := by cases how <;> rfl
+  have h2 : multiNames [FOperand.df (reindexF { idx := idx, cols := [(n, col)] } idx m), FOperand.num q] = [] := by
+    simp [multiNames, reindexF]
+  simp only [binopF, h1, hix, alignF, kernelF, h2, resultCols, colArg_one _ _ _ _ _ _ _ h]
+  simp [colArg, kernel, isDf, resultName, nameOf, reindexF, wrap1, reindexR_idx, binop, alignAll, indexesOf, hix]
+
+theorem one_col_one_col (op : Op) (how : How) (m : Option Dir) (ch : ColHow) (idx idx' : List Int) (n n' : String) (col col' : RCol)
+    (h : col.length = idx.length) (h' : col'.length = idx'.length) :
+    binopF op how m ch (.df { idx := idx, cols := [(n, col)] }) (.df { idx := idx', cols := [(n', col')] }) =
+      wrap1 (if n = n' then n else "0") (binop op how m (.ts { idx := idx, vals := col }) (.ts { idx := idx', vals := col' })) := by
+  obtain ⟨ix, hix, hb⟩ := binop_index op how m { idx := idx, vals := col } { idx := idx', vals := col' }
+  rw [hb]
+  have h1 : indexesOfF [FOperand.df { idx := idx, cols := [(n, col)] }, FOperand.df { idx := idx', cols := [(n', col')] }] = [idx, idx'] := rfl
+  have h2 : multiNames [FOperand.df (reindexF { idx := idx, cols := [(n, col)] } ix m), FOperand.df (reindexF { idx := idx', cols := [(n', col')] } ix m)] = [] := by
+    simp [multiNames, reindexF]
+  simp only [binopF, h1, hix, alignF, kernelF, h2, resultCols, colArg_one _ _ _ _ _ _ _ h, colArg_one _ _ _ _ _ _ _ h']
+  simp [kernel, isDf, resultName, nameOf, reindexF, wrap1, reindexR_idx]
+  split <;> simp_all
+
 /-- dividing a frame by the scalar 0 gives a NaN frame of the same shape (never ±inf; F10 for frames) -/
 theorem div_by_zero_scalar_frame (how : How) (m : Option Dir) (ch : ColHow) (a : RFrame) (ha : a.cols.length > 1) :
     binopF .div how m ch (.df a) (.num (some 0)) =
